@@ -62,6 +62,10 @@ MARKVAL = z3.Function('file_marker_value', STR, I)
 def _open(eng, st, args, kwargs, node):
 	"""open(path, mode): a file object (OSError for unreadable paths is not modelled); the mode is recorded for C18"""
 	mode = args[1] if len(args) > 1 else kwargs.get('mode', 'r')
+	if not isinstance(mode, str):
+		raise Unsupported('open() with a symbolic mode')
+	if any(ch in mode for ch in 'wax+'):
+		st.ghosts['fs_write'] = True
 	yield st, ExtObj('file', path=args[0], mode=mode, enter=None)
 
 
@@ -84,6 +88,8 @@ def _h5file(eng, st, args, kwargs, node):
 	from contracts.hdf5c import MARKER
 	path = args[0]
 	mode = args[1] if len(args) > 1 else kwargs.get('mode', 'r')
+	if mode != 'r':
+		st.ghosts['fs_write'] = True       # every h5py mode other than 'r' may create, truncate or modify the file
 	d = SDict(TStr, TAttrVal, z3.Const(fresh_name('attrs_dom'), z3.ArraySort(STR, B)), z3.Const(fresh_name('attrs_val'), z3.ArraySort(STR, TAttrVal.sort)), None)
 	st.assume(z3.Select(d.dom, z3.StringVal(MARKER)) == HASMARK(to_term(path)))
 	a = Ref('dict')
@@ -91,3 +97,8 @@ def _h5file(eng, st, args, kwargs, node):
 	r = Ref('record')
 	st.heap[r.addr] = Record('h5py.Group', {'attrs': a, 'path': path, 'mode': mode})
 	yield st, r
+
+
+@lib('__ghost_init__h5')
+def _ghost_init_h5(eng, st):
+	st.ghosts['fs_write'] = False
